@@ -8,9 +8,10 @@
     inside the slice's right spine and the resulting slice can lose it).
 
   Positions need no condition: out-of-range positions are a `ValueError` ("Position … out of range"),
-  a cut inside a surrogate pair a `UnicodeDecodeError` (a `ValueError`).  The model reports
-  `to < from` as a ValueError too (`replaceKids`, `sliceKids`); that guard is a limit of the model,
-  not of the code — see the note at `apply_no_internal` in Props/C01.lean.
+  a cut inside a surrogate pair a `UnicodeDecodeError` (a `ValueError`); a range with `to < from`
+  is refused by `replace()` with a ReplaceError since the repair recorded as C01-unordered-range
+  (`rangeErr` in PM/Replace.lean; `sliceKids` still answers `.valueError` there, the same class for
+  C01) — see the note at `apply_no_internal` in Props/C01.lean.
 -/
 import PM.Step
 namespace PM
